@@ -3,4 +3,4 @@ From Coq Require Import ExtrOcamlBasic.
 From Coq Require Extraction.
 From LJT Require Import model.Transform.
 Extraction Language OCaml.
-Extraction "x_c06.ml" transform tj_transform perfect_transform get_subsamp_l.
+Extraction "x_c06.ml" transform tj_transform perfect_transform get_subsamp_l tj_transform_buf_size transform_pad.
